@@ -35,6 +35,17 @@ func init() {
 						deep = true
 					}
 				}
+				// The same input with CRLF and with CR line endings (the alphabets are
+				// written with LF): where a span ends relative to a two-byte line ending.
+				for _, v := range eolVariants(in) {
+					vb, _ := cm.Parse(clone(v))
+					for _, rb := range vb {
+						if !checkSpans(x, v, rb, validUTF8) {
+							break
+						}
+					}
+					x.Count("inputs_also_as_crlf_or_cr")
+				}
 				if deep {
 					x.Count("inputs_depth_ge3")
 				}
@@ -493,6 +504,15 @@ func init() {
 					if checkShapes(x, in, rb, &nt) {
 						break
 					}
+				}
+				for _, v := range eolVariants(in) {
+					vb, _ := cm.Parse(clone(v))
+					for _, rb := range vb {
+						if checkShapes(x, v, rb, &nt) {
+							break
+						}
+					}
+					x.Count("inputs_also_as_crlf_or_cr")
 				}
 				if nt {
 					x.Nontrivial()
